@@ -37,6 +37,7 @@ func C16(c *Ctx) {
 	}
 	c16AppendOnly(c)
 	c16Scanners(c)
+	c16LockPath(c)
 	c16Read(c)
 }
 
@@ -357,6 +358,43 @@ func c16Scanners(c *Ctx) {
 		r.Check(s.max == ref && s.max > 0, "C16/R3", "file_storage."+s.fn.Name()+":scanner-limit", "scanner line limit equals the largest limit used on the data file", c.PosOf(s.new),
 			sprintf("this scanner stops at lines longer than %d bytes while another accepts %d: after a longer line the counter returns a stale count and every later message gets a repeated offset", s.max, ref))
 	}
+}
+
+// c16LockPath: all writers of one board exclude each other only if they lock the SAME file. The lock path handed to
+// fslock.New is therefore the caller's argument or a constant — never something read from the process environment
+// (os.TempDir follows $TMPDIR, os.Getenv, the working directory, the user's home): two writers started with different
+// environments would take different locks and the count-then-append section would no longer be exclusive.
+func c16LockPath(c *Ctx) {
+	r := c.R
+	sp := c.P.SSAPkg(pkgFS)
+	if sp == nil {
+		return
+	}
+	n := 0
+	var bad []string
+	env := func(v ssa.Value) bool {
+		if call, ok := v.(*ssa.Call); ok {
+			switch ssax.FuncID(ssax.CalleeObj(call)) {
+			case "os.TempDir", "os.Getenv", "os.LookupEnv", "os.Getwd", "os.UserHomeDir", "os.UserCacheDir", "os.UserConfigDir", "os.Getpid", "os.Hostname", "os.Executable", "os.MkdirTemp", "os.CreateTemp", "io/ioutil.TempDir", "io/ioutil.TempFile":
+				return true
+			}
+		}
+		return false
+	}
+	for fn := range c.P.AllFuncs() {
+		if fn.Pkg != sp || c.isTestFunc(fn) {
+			continue
+		}
+		for _, call := range ssax.CallsTo(fn, "github.com/juju/fslock.New") {
+			n++
+			if derivesFrom(call.Common().Args[0], env, 0, map[ssa.Value]bool{}) {
+				bad = append(bad, fn.Name()+" at "+c.PosOf(call)+": "+ssax.Path(call.Common().Args[0]))
+			}
+		}
+	}
+	sort.Strings(bad)
+	r.Check(n >= 1 && len(bad) == 0, "C16/R1", "file_storage:lock-path-fixed", "the lock file path is the caller's argument or a constant, not derived from the process environment", "",
+		sprintf("%d fslock.New calls; environment-dependent: %s", n, strings.Join(bad, "; ")))
 }
 
 func c16Read(c *Ctx) {
